@@ -1,7 +1,8 @@
-use std::fmt::Display;
+use std::{cmp::Ordering, fmt::Display};
 
 use num_traits::AsPrimitive;
 
+use super::number::Num;
 use crate::{InputType, InputValueError};
 
 pub fn minimum<T, N>(value: &T, n: N) -> Result<(), InputValueError<T>>
@@ -9,6 +10,22 @@ where
     T: AsPrimitive<N> + InputType,
     N: PartialOrd + Display + Copy + 'static,
 {
+    // numbers of primitive types are compared by their exact values
+    if let (Some(value), Some(bound)) = (Num::new(value), Num::new(&n)) {
+        return if matches!(
+            value.partial_cmp(bound),
+            Some(Ordering::Greater | Ordering::Equal)
+        ) {
+            Ok(())
+        } else {
+            Err(format!(
+                "the value is {}, must be greater than or equal to {}",
+                value, n
+            )
+            .into())
+        };
+    }
+
     if value.as_() >= n {
         Ok(())
     } else {
@@ -30,5 +47,29 @@ mod tests {
         assert!(minimum(&99, 100).is_err());
         assert!(minimum(&100, 100).is_ok());
         assert!(minimum(&101, 100).is_ok());
+    }
+
+    #[test]
+    fn test_minimum_mixed_types() {
+        // the bound of `#[graphql(validator(minimum = ...))]` is an `i64` or `f64`
+        assert!(minimum(&9u64, 10i64).is_err());
+        assert!(minimum(&(1u64 << 63), 10i64).is_ok());
+        assert!(minimum(&u64::MAX, i64::MAX).is_ok());
+        assert!(minimum(&0.0f64, 0i64).is_ok());
+        assert!(minimum(&-0.5f64, 0i64).is_err());
+        assert!(minimum(&10.5f64, 11i64).is_err());
+        assert!(minimum(&-1e300f64, i64::MIN).is_err());
+        assert!(minimum(&-0.5f32, 0i64).is_err());
+        assert!(minimum(&-9007199254740992i64, -9007199254740992.0f64).is_ok());
+        assert!(minimum(&-9007199254740993i64, -9007199254740992.0f64).is_err());
+        assert!(minimum(&11i8, 10.5f64).is_ok());
+        assert!(minimum(&10u8, 10.5f64).is_err());
+        assert_eq!(
+            minimum(&-0.5f64, 0i64)
+                .unwrap_err()
+                .into_server_error(Default::default())
+                .message,
+            "Failed to parse \"Float\": the value is -0.5, must be greater than or equal to 0"
+        );
     }
 }
